@@ -13,6 +13,7 @@ from .facts import callee
 from .flow import ExprBuilder, canon, fmt_expr, stated_preconditions, in_debug_region, walk, cfg_of
 from .logic import Ctx, subst, uncast, is_call, const_of
 from . import roles
+from .inline import resolve_sites
 
 INT_TYS = ("usize", "u8", "u16", "u32", "u64", "u128", "isize", "i8", "i16", "i32", "i64", "i128")
 
@@ -111,139 +112,149 @@ def run(facts):
         for (b, p) in helpers.values()))
     n_calls = 0
     n_raw = 0
+    # helpers the rule anchors on stay calls: the unsafe helpers themselves and the handle-copying functions norm_handle models
+    keep_names = ("clone",) + tuple(sorted(x.rsplit("::", 1)[-1] for x in COPY_FNS))
     for caller in facts.fn_bodies():
-        eb = ExprBuilder(caller, facts, inline=True)
-        own_pre = stated_preconditions(caller, facts) if caller.safety == "unsafe" else []
+        sites = resolve_sites(facts, caller, lambda view, only: judge_sites(facts, helpers, view, only), keep_names=keep_names,
+                              keep_dids=set(helpers), is_entry=lambda fb: is_slot_or_public_entry(facts, fb))
+        if not sites:
+            continue
         cnt = {}
-        for bi, t in caller.calls():
-            if caller.blocks[bi]["cleanup"] or in_debug_region(caller, bi):
-                continue
-            fn = callee(t)
-            if fn is None:
-                continue
-            r = fn.get("res") or fn
-            loc = (bi, len(caller.blocks[bi]["stmts"]))
-            # ---- A6: helper preconditions -------------------------------------------------
-            if r.get("local") and r.get("did") in helpers:
-                hb, pre = helpers[r["did"]]
-                args = {i + 1: eb.operand(a, loc) for i, a in enumerate(t["args"])}
-                extra = list(own_pre) + reserve_postcondition(caller, bi, facts, eb)
-                ctx = Ctx(caller, bi, facts, extra=extra)
-                for rel in pre:
-                    n_calls += 1
-                    want = tuple(norm_handle(subst(x, args)) if isinstance(x, tuple) else x for x in rel)
-                    desc = "%s(%s, %s)" % (want[0], fmt_expr(want[1]), fmt_expr(want[2]) if want[0] != "truth" else want[2])
-                    k = "%s -> %s|%s" % (caller.id, hb.id.rsplit("::", 1)[-1], "%s(%s,%s)" % (rel[0], fmt_expr(rel[1]), fmt_expr(rel[2]) if rel[0] != "truth" else rel[2]))
-                    c = cnt.get(k, 0)
-                    cnt[k] = c + 1
-                    key = k + ("#%d" % c if c else "")
-                    if ctx.holds(want):
-                        res.ok(key, caller.loc(bi), "established at the call: %s" % desc, nontrivial=True)
-                    elif caller.safety == "unsafe":
-                        res.ok(key, caller.loc(bi), "caller is itself unsafe: obligation %s is part of its own contract" % desc)
-                    else:
-                        res.bad(key, caller.loc(bi), "safe caller does not establish the helper's precondition in release code: need %s "
-                                                     "(the helper only checks it under debug_assert!)" % desc)
-                continue
-            if caller.safety == "unsafe" and caller.kind != "closure":
-                # raw operations inside unsafe fns are governed by the fn's own contract
-                pass
-            path = r["path"]
-            name = fn["name"]
-            # ---- A7: raw slice shapes (safe fns) ------------------------------------------
-            if name in ("from_raw_parts", "from_raw_parts_mut") and ("core::slice" in path or "UninitSlice" in path) and caller.safety == "safe":
+        for x in sites:
+            if x["kind"] == "pre":
+                n_calls += 1
+            else:
                 n_raw += 1
-                p_, l_ = [canon(eb.operand(a, loc)) for a in t["args"][:2]]
-                key = "%s|%s" % (caller.id, name)
-                ok, how = raw_slice_shape(p_, l_)
-                if ok:
-                    res.ok(key, caller.loc(bi), how)
-                else:
-                    res.bad(key, caller.loc(bi), "raw slice (%s, %s) is not (h.ptr, h.len) / (h.ptr+h.len, h.cap-h.len) / (v.ptr+v.len, v.capacity-v.len)" % (fmt_expr(p_), fmt_expr(l_)))
-                continue
-            # ---- C3: raw writes in safe fns -----------------------------------------------
-            is_write = (path in ("core::ptr::write_bytes", "core::ptr::copy_nonoverlapping", "core::ptr::copy",
-                                 "core::intrinsics::write_bytes", "core::intrinsics::copy_nonoverlapping", "core::intrinsics::copy")
-                        or (name == "write" and "ptr::mut_ptr" in path))
-            if is_write and caller.safety == "safe":
-                n_raw += 1
-                args = [eb.operand(a, loc) for a in t["args"]]
-                key = "%s|%s" % (caller.id, name)
-                c = cnt.get(key, 0)
-                cnt[key] = c + 1
-                if c:
-                    key += "#%d" % c
-                extra = reserve_postcondition(caller, bi, facts, eb)
-                ctx = Ctx(caller, bi, facts, extra=extra, norm=norm_len)
-                if name == "write_bytes":
-                    dst, n, src = args[0], args[2], None
-                elif name in ("copy_nonoverlapping", "copy"):
-                    src, dst, n = args[0], args[1], args[2]
-                else:
-                    dst, n, src = args[0], ("const", 1), None
-                probs = []
-                hows = []
-                for (what, ptr) in (("destination", dst), ("source", src)):
-                    if ptr is None:
-                        continue
-                    base = strip_ptr(ptr)
-                    if is_call(base, "as_mut_ptr") or is_call(base, "as_ptr"):
-                        s_ = base[2][0]
-                        is_vec = "alloc::vec::Vec" in base[1]
-                        ln = ("call", "len", (s_,))
-                        ok = ctx.le(n, ln) or len_matches(n, s_, ctx)
-                        if name == "write" and not ok:
-                            ok = ctx.lt(("const", 0), ln) or nonempty_index(s_, ctx)
-                        if is_vec and what == "destination":
-                            # a Vec's buffer is writable up to its capacity
-                            ok = ctx.le(n, ("call", "alloc::vec::Vec::<T, A>::capacity", (s_,)))
-                            if not ok and not (tainted_by_int_param(n, caller) or tainted_by_int_param(ptr, caller)):
-                                hows.append("%s: Vec buffer, count is handle state (justified by A8/A9)" % what)
-                                continue
-                        if ok:
-                            hows.append("%s: count <= %s(%s)" % (what, "capacity" if (is_vec and what == "destination") else "len", fmt_expr(s_)[:60]))
-                        else:
-                            probs.append("%s count %s is not bounded by the length of %s" % (what, fmt_expr(n), fmt_expr(s_)))
-                    else:
-                        # raw pointer arithmetic on handle fields: representation-invariant site (rule A8)
-                        if tainted_by_int_param(n, caller) or tainted_by_int_param(ptr, caller):
-                            probs.append("%s is raw pointer arithmetic with a caller-controlled operand: %s" % (what, fmt_expr(ptr)))
-                        else:
-                            hows.append("%s: internal pointer, operands are handle state (justified by A8)" % what)
-                if probs:
-                    res.bad(key, caller.loc(bi), "; ".join(probs))
-                else:
-                    res.ok(key, caller.loc(bi), "; ".join(hows), nontrivial=True)
-                continue
-            # ---- unchecked pointer moves in safe fns --------------------------------------
-            if name in ("add", "sub", "offset") and ("ptr::mut_ptr" in path or "ptr::const_ptr" in path or "NonNull" in path) and caller.safety == "safe":
-                n_raw += 1
-                args = [eb.operand(a, loc) for a in t["args"]]
-                key = "%s|ptr.%s" % (caller.id, name)
-                c = cnt.get(key, 0)
-                cnt[key] = c + 1
-                if c:
-                    key += "#%d" % c
-                x = args[1]
-                if not tainted_by_int_param(x, caller):
-                    res.ok(key, caller.loc(bi), "offset %s is handle state, not a caller-controlled integer (justified by A8)" % fmt_expr(x)[:80])
-                    continue
-                ctx = Ctx(caller, bi, facts)
-                base = norm_handle(canon(strip_ptr(args[0])))
-                ok = False
-                how = ""
-                if isinstance(base, tuple) and base[0] == "field" and base[2] == "ptr":
-                    for f in ("len", "cap"):
-                        if not ok and ctx.le(x, ("field", base[1], f)):
-                            ok = True
-                            how = "guard offset <= handle.%s" % f
-                if ok:
-                    res.ok(key, caller.loc(bi), how, nontrivial=True)
-                else:
-                    res.bad(key, caller.loc(bi), "unchecked pointer move by a caller-controlled amount %s without a dominating bound check" % fmt_expr(x))
+            k = "%s%s" % (caller.id, x["keytail"])
+            c = cnt.get(k, 0)
+            cnt[k] = c + 1
+            key = k + ("#%d" % c if c else "")
+            if x["ok"]:
+                res.ok(key, caller.loc(x["bi"]), x["text"], nontrivial=x["nontrivial"])
+            else:
+                res.bad(key, caller.loc(x["bi"]), x["text"])
     res.floor("helper_precondition_obligations", n_calls, 20)
     res.floor("raw_sites_in_safe_fns", n_raw, 15)
     return res
+
+
+def is_slot_or_public_entry(facts, b):
+    """functions reachable from outside without a crate caller: vtable slot functions (their address is stored)"""
+    for name, slots in roles.vtables(facts).items():
+        for s_ in slots.values():
+            if s_ and (s_.get("did") == b.did or (s_.get("res") or {}).get("did") == b.did):
+                return True
+    return False
+
+
+def judge_sites(facts, helpers, caller, only_blocks=None):
+    """verdicts for every A6/A7/C3 site in `caller` (an original body or an inlined view): dicts with bi, j (index of the
+    obligation within the site), kind, keytail, ok, text, nontrivial"""
+    out = []
+    eb = ExprBuilder(caller, facts, inline=True)
+    own_pre = stated_preconditions(caller, facts) if caller.safety == "unsafe" else []
+    for bi, t in caller.calls():
+        if only_blocks is not None and bi not in only_blocks:
+            continue
+        if caller.blocks[bi]["cleanup"] or in_debug_region(caller, bi):
+            continue
+        fn = callee(t)
+        if fn is None:
+            continue
+        r = fn.get("res") or fn
+        loc = (bi, len(caller.blocks[bi]["stmts"]))
+
+        def emit(j, kind, keytail, ok, text, nontrivial=False):
+            out.append({"bi": bi, "j": j, "kind": kind, "keytail": keytail, "ok": ok, "text": text, "nontrivial": nontrivial})
+        # ---- A6: helper preconditions -------------------------------------------------
+        if r.get("local") and r.get("did") in helpers:
+            hb, pre = helpers[r["did"]]
+            args = {i + 1: eb.operand(a, loc) for i, a in enumerate(t["args"])}
+            extra = list(own_pre) + reserve_postcondition(caller, bi, facts, eb)
+            ctx = Ctx(caller, bi, facts, extra=extra)
+            for j, rel in enumerate(pre):
+                want = tuple(norm_handle(subst(x, args)) if isinstance(x, tuple) else x for x in rel)
+                desc = "%s(%s, %s)" % (want[0], fmt_expr(want[1]), fmt_expr(want[2]) if want[0] != "truth" else want[2])
+                kt = " -> %s|%s" % (hb.id.rsplit("::", 1)[-1], "%s(%s,%s)" % (rel[0], fmt_expr(rel[1]), fmt_expr(rel[2]) if rel[0] != "truth" else rel[2]))
+                if ctx.holds(want):
+                    emit(j, "pre", kt, True, "established at the call: %s" % desc, True)
+                elif caller.safety == "unsafe" and caller.blocks[bi].get("origin", caller.did) == caller.did:
+                    emit(j, "pre", kt, True, "caller is itself unsafe: obligation %s is part of its own contract" % desc)
+                else:
+                    emit(j, "pre", kt, False, "safe caller does not establish the helper's precondition in release code: need %s "
+                                              "(the helper only checks it under debug_assert!)" % desc)
+            continue
+        path = r["path"]
+        name = fn["name"]
+        # ---- A7: raw slice shapes (safe fns) ------------------------------------------
+        if name in ("from_raw_parts", "from_raw_parts_mut") and ("core::slice" in path or "UninitSlice" in path) and caller.safety == "safe":
+            p_, l_ = [canon(eb.operand(a, loc)) for a in t["args"][:2]]
+            ok, how = raw_slice_shape(p_, l_)
+            emit(0, "raw", "|%s" % name, ok, how if ok else "raw slice (%s, %s) is not (h.ptr, h.len) / (h.ptr+h.len, h.cap-h.len) / (v.ptr+v.len, v.capacity-v.len)" % (fmt_expr(p_), fmt_expr(l_)))
+            continue
+        # ---- C3: raw writes in safe fns -----------------------------------------------
+        is_write = (path in ("core::ptr::write_bytes", "core::ptr::copy_nonoverlapping", "core::ptr::copy",
+                             "core::intrinsics::write_bytes", "core::intrinsics::copy_nonoverlapping", "core::intrinsics::copy")
+                    or (name == "write" and "ptr::mut_ptr" in path))
+        if is_write and caller.safety == "safe":
+            args = [eb.operand(a, loc) for a in t["args"]]
+            extra = reserve_postcondition(caller, bi, facts, eb)
+            ctx = Ctx(caller, bi, facts, extra=extra, norm=norm_len)
+            if name == "write_bytes":
+                dst, n, src = args[0], args[2], None
+            elif name in ("copy_nonoverlapping", "copy"):
+                src, dst, n = args[0], args[1], args[2]
+            else:
+                dst, n, src = args[0], ("const", 1), None
+            probs = []
+            hows = []
+            for (what, ptr) in (("destination", dst), ("source", src)):
+                if ptr is None:
+                    continue
+                base = strip_ptr(ptr)
+                if is_call(base, "as_mut_ptr") or is_call(base, "as_ptr"):
+                    s_ = base[2][0]
+                    is_vec = "alloc::vec::Vec" in base[1]
+                    ln = ("call", "len", (s_,))
+                    ok = ctx.le(n, ln) or len_matches(n, s_, ctx)
+                    if name == "write" and not ok:
+                        ok = ctx.lt(("const", 0), ln) or nonempty_index(s_, ctx)
+                    if is_vec and what == "destination":
+                        # a Vec's buffer is writable up to its capacity
+                        ok = ctx.le(n, ("call", "alloc::vec::Vec::<T, A>::capacity", (s_,)))
+                        if not ok and not (tainted_by_int_param(n, caller) or tainted_by_int_param(ptr, caller)):
+                            hows.append("%s: Vec buffer, count is handle state (justified by A8/A9)" % what)
+                            continue
+                    if ok:
+                        hows.append("%s: count <= %s(%s)" % (what, "capacity" if (is_vec and what == "destination") else "len", fmt_expr(s_)[:60]))
+                    else:
+                        probs.append("%s count %s is not bounded by the length of %s" % (what, fmt_expr(n), fmt_expr(s_)))
+                else:
+                    # raw pointer arithmetic on handle fields: representation-invariant site (rule A8)
+                    if tainted_by_int_param(n, caller) or tainted_by_int_param(ptr, caller):
+                        probs.append("%s is raw pointer arithmetic with a caller-controlled operand: %s" % (what, fmt_expr(ptr)))
+                    else:
+                        hows.append("%s: internal pointer, operands are handle state (justified by A8)" % what)
+            emit(0, "raw", "|%s" % name, not probs, "; ".join(probs) if probs else "; ".join(hows), not probs)
+            continue
+        # ---- unchecked pointer moves in safe fns --------------------------------------
+        if name in ("add", "sub", "offset") and ("ptr::mut_ptr" in path or "ptr::const_ptr" in path or "NonNull" in path) and caller.safety == "safe":
+            args = [eb.operand(a, loc) for a in t["args"]]
+            x = args[1]
+            if not tainted_by_int_param(x, caller):
+                emit(0, "raw", "|ptr.%s" % name, True, "offset %s is handle state, not a caller-controlled integer (justified by A8)" % fmt_expr(x)[:80])
+                continue
+            ctx = Ctx(caller, bi, facts)
+            base = norm_handle(canon(strip_ptr(args[0])))
+            ok = False
+            how = ""
+            if isinstance(base, tuple) and base[0] == "field" and base[2] == "ptr":
+                for f in ("len", "cap"):
+                    if not ok and ctx.le(x, ("field", base[1], f)):
+                        ok = True
+                        how = "guard offset <= handle.%s" % f
+            emit(0, "raw", "|ptr.%s" % name, ok, how if ok else "unchecked pointer move by a caller-controlled amount %s without a dominating bound check" % fmt_expr(x), ok)
+    return out
 
 
 def slice_id(e):
